@@ -10,6 +10,7 @@ import (
 	"flag"
 	"fmt"
 	"os"
+	"os/exec"
 	"path/filepath"
 	"runtime/debug"
 	"runtime/pprof"
@@ -534,6 +535,10 @@ func runProperty(eng *symex.Engine, prop, tier string, t0 time.Time) int {
 			}
 		}
 	}
+	var selftest map[string]any
+	if tier == "thorough" {
+		selftest = runSelftest(prop)
+	}
 	wall := time.Since(t0).Seconds()
 	ev := evidence{PropertyID: prop, Tier: tier, Seed: seed, Level: info.Level, WallS: wall, Violations: violations}
 	ev.Coverage = map[string]any{
@@ -552,6 +557,9 @@ func runProperty(eng *symex.Engine, prop, tier string, t0 time.Time) int {
 		"samples":                  samples,
 		"known_findings_reported":  len(known),
 		"contracts_sha256":         contractsHash(eng),
+	}
+	if selftest != nil {
+		ev.Coverage["selftest_must_fail_corpus"] = selftest
 	}
 	ev.Assumptions = append(ev.Assumptions, globalAssumptions...)
 	ev.Assumptions = append(ev.Assumptions, eng.Notes...)
@@ -658,4 +666,91 @@ func replay(path string) int {
 		return 0
 	}
 	return 1
+}
+
+// ---------------------------------------------------------------------------
+// Must-fail corpus (thorough tier): every canary of the property is an in-memory edit of the repository that breaks the
+// property; the named obligation must fail with it. A canary that is not detected means a vacuous or too weak contract;
+// it is reported (SELFTEST ... MISSED) and recorded in the evidence, it is not a violation of the property by /repo.
+
+type canary struct {
+	Prop   string `json:"prop"`
+	Func   string `json:"func"`
+	Only   string `json:"only"`
+	File   string `json:"file"`
+	Old    string `json:"old"`
+	New    string `json:"new"`
+	Expect string `json:"expect"`
+}
+
+func runSelftest(prop string) map[string]any {
+	data, err := os.ReadFile(verifRoot() + "/selftest.json")
+	if err != nil {
+		return nil
+	}
+	var corpus struct {
+		Canaries []canary `json:"canaries"`
+	}
+	if err := json.Unmarshal(data, &corpus); err != nil {
+		fmt.Println("selftest.json:", err)
+		return nil
+	}
+	var list []canary
+	for _, c := range corpus.Canaries {
+		if c.Prop == prop {
+			list = append(list, c)
+		}
+	}
+	type outcome struct {
+		c      canary
+		status string
+		oblig  string
+	}
+	res := make([]outcome, len(list))
+	sem := make(chan bool, 3)
+	done := make(chan int)
+	for i, c := range list {
+		go func(i int, c canary) {
+			sem <- true
+			defer func() { <-sem; done <- i }()
+			args := []string{"-repo", *flagRepo, "-func", c.Func, "-nosave", "-timeout", "10", "-mutate", c.File + "@@" + c.Old + "@@" + c.New}
+			if c.Only != "" {
+				args = append(args, "-only", c.Only)
+			}
+			cmd := exec.Command(os.Args[0], args...)
+			cmd.Env = append(os.Environ(), "GOFLAGS=-mod=mod", "GOPROXY=off", "GOSUMDB=off", "GOTOOLCHAIN=local")
+			out, _ := cmd.CombinedOutput()
+			res[i] = outcome{c: c, status: "MISSED"}
+			for _, l := range strings.Split(string(out), "\n") {
+				if strings.Contains(l, "mutate: pattern not found") || strings.Contains(l, "does not type-check") {
+					res[i].status = "STALE"
+				}
+				if strings.HasPrefix(l, "FAIL") && strings.Contains(l, c.Expect) && res[i].status != "detected" {
+					res[i].status = "detected"
+					res[i].oblig = strings.TrimSpace(strings.TrimPrefix(l, "FAIL"))
+				}
+			}
+		}(i, c)
+	}
+	for range list {
+		<-done
+	}
+	detected := 0
+	var rows []any
+	for _, r := range res {
+		if r.status == "detected" {
+			detected++
+		}
+		fmt.Printf("SELFTEST property=%s canary=%s:%q -> %q %s %s\n", prop, r.c.File, firstLine(r.c.Old), firstLine(r.c.New), r.status, r.oblig)
+		rows = append(rows, map[string]any{"file": r.c.File, "old": r.c.Old, "new": r.c.New, "function": r.c.Func, "status": r.status, "failing_obligation": r.oblig})
+	}
+	return map[string]any{"canaries": len(list), "detected": detected, "results": rows}
+}
+
+func firstLine(s string) string {
+	s = strings.TrimSpace(s)
+	if i := strings.IndexByte(s, '\n'); i >= 0 {
+		return s[:i] + " ..."
+	}
+	return s
 }
